@@ -8,7 +8,7 @@ R="$1"; F="${2:-}"
 cd "$V"; mkdir -p "$V/.build"
 out="$V/seeded/RESULTS.tsv"
 [ -z "$F" ] && : > "$out"
-export VERIF_REPO="$R" VERIF_EVIDENCE_DIR="$V/.work/evidence-scratch"
+export VERIF_REPO="$R" VERIF_EVIDENCE_DIR="$V/.work/evidence-scratch" VERIF_WORK_SUFFIX="-$(basename "$R")"
 for d in "$V"/seeded/*/; do
   id=$(basename "$d"); prop=${id%%-*}
   [ -n "$F" ] && [[ "$id" != $F* ]] && continue
